@@ -3,73 +3,74 @@
    `exact`.  The property itself is a refinement claim ("equal those of a reference model applying
    the same steps"): the reference model is this machine and the correspondence over histories is
    what ties it to interface.py; the theorems below say what the machine guarantees. *)
-From GV Require Import Base.Prelude Base.PyStr Model.Bins Model.DB Model.Parser Model.Import Model.Machine
+From GV Require Import Base.Prelude Base.PyStr Model.Bins Model.DB Model.Parser Model.Import Model.GtfSpec Model.Machine
   Proofs.C04Proofs Proofs.C10Proofs.
 Open Scope Z_scope.
 
 Section P.
   Variable call : nat -> row -> option str.     (* user id_spec callables: any *)
+  Variable kind : dbkind.                        (* GFF3- or GTF-dialect database: update() routes by the stored dialect *)
 
   (* delete removes the named features ... *)
   Theorem C10_delete_rows : forall s ids b r,
-    In r (s_rows (m_disk (fst (step call s (OpDelete ids b))))) <-> In r (s_rows (m_disk s)) /\ ~ In (r_id r) ids.
-  Proof. exact (l_delete_rows call). Qed.
+    In r (s_rows (m_disk (fst (step call kind s (OpDelete ids b))))) <-> In r (s_rows (m_disk s)) /\ ~ In (r_id r) ids.
+  Proof. exact (l_delete_rows call kind). Qed.
 
   (* ... every relation mentioning them ... *)
   Theorem C10_delete_rels : forall s ids b x,
-    In x (s_rels (m_disk (fst (step call s (OpDelete ids b))))) <->
+    In x (s_rels (m_disk (fst (step call kind s (OpDelete ids b))))) <->
     In x (s_rels (m_disk s)) /\ ~ In (rel_parent x) ids /\ ~ In (rel_child x) ids.
-  Proof. exact (l_delete_rels call). Qed.
+  Proof. exact (l_delete_rels call kind). Qed.
 
   (* ... and nothing else (order of the surviving rows, duplicates table, persisted and live counters) *)
   Theorem C10_delete_nothing_else : forall s ids b,
-    let s' := fst (step call s (OpDelete ids b)) in
+    let s' := fst (step call kind s (OpDelete ids b)) in
     s_dups (m_disk s') = s_dups (m_disk s) /\ s_auto (m_disk s') = s_auto (m_disk s) /\ m_mem s' = m_mem s /\
-    snd (step call s (OpDelete ids b)) = Ok tt /\
+    snd (step call kind s (OpDelete ids b)) = Ok tt /\
     (forall r1 r2 l1 l2 l3, s_rows (m_disk s') = l1 ++ r1 :: l2 ++ r2 :: l3 ->
        exists k1 k2 k3, s_rows (m_disk s) = k1 ++ r1 :: k2 ++ r2 :: k3).
-  Proof. exact (l_delete_rest call). Qed.
+  Proof. exact (l_delete_rest call kind). Qed.
 
   (* update with no features changes nothing *)
   Theorem C10_update_empty : forall s strat spec w b,
-    m_disk (fst (step call s (OpUpdate [] strat spec w None b))) = m_disk s /\
-    m_mem (fst (step call s (OpUpdate [] strat spec w None b))) = m_mem s /\
-    snd (step call s (OpUpdate [] strat spec w None b)) = Ok tt.
-  Proof. exact (l_update_empty call). Qed.
+    m_disk (fst (step call kind s (OpUpdate [] strat spec w None b))) = m_disk s /\
+    m_mem (fst (step call kind s (OpUpdate [] strat spec w None b))) = m_mem s /\
+    snd (step call kind s (OpUpdate [] strat spec w None b)) = Ok tt.
+  Proof. exact (l_update_empty call kind). Qed.
 
   (* with make_backup the .bak holds the complete pre-operation database: for every update -
      whatever the features, the strategy, and EVERY position at which the source may fail - and
      every delete *)
   Theorem C10_backup_update : forall s fs strat spec w fail,
-    m_bak (fst (step call s (OpUpdate fs strat spec w fail true))) = Some (m_disk s).
-  Proof. exact (l_backup_update call). Qed.
+    m_bak (fst (step call kind s (OpUpdate fs strat spec w fail true))) = Some (m_disk s).
+  Proof. exact (l_backup_update call kind). Qed.
 
-  Theorem C10_backup_delete : forall s ids, m_bak (fst (step call s (OpDelete ids true))) = Some (m_disk s).
-  Proof. exact (l_backup_delete call). Qed.
+  Theorem C10_backup_delete : forall s ids, m_bak (fst (step call kind s (OpDelete ids true))) = Some (m_disk s).
+  Proof. exact (l_backup_delete call kind). Qed.
 
   Theorem C10_backup_kept : forall s o,
     (match o with OpUpdate _ _ _ _ _ b => b = false | OpDelete _ b => b = false | _ => True end) ->
-    m_bak (fst (step call s o)) = m_bak s.
-  Proof. exact (l_backup_kept call). Qed.
+    m_bak (fst (step call kind s o)) = m_bak s.
+  Proof. exact (l_backup_kept call kind). Qed.
 
   (* an update whose feature source fails leaves the file untouched, at every failure position *)
   Theorem C10_failed_source_atomic : forall s fs strat spec w k b, (k <= length fs)%nat ->
-    m_disk (fst (step call s (OpUpdate fs strat spec w (Some k) b))) = m_disk s /\
-    exists e, snd (step call s (OpUpdate fs strat spec w (Some k) b)) = Err e.
-  Proof. exact (l_failed_source_atomic call). Qed.
+    m_disk (fst (step call kind s (OpUpdate fs strat spec w (Some k) b))) = m_disk s /\
+    exists e, snd (step call kind s (OpUpdate fs strat spec w (Some k) b)) = Err e.
+  Proof. exact (l_failed_source_atomic call kind). Qed.
 
   Theorem C10_failed_populate_atomic : forall s fs strat spec w b e,
-    fst (run_track call strat spec fs (with_auto (m_disk s) (m_mem s))) = Err e ->
-    m_disk (fst (step call s (OpUpdate fs strat spec w None b))) = m_disk s.
-  Proof. exact (l_failed_populate_atomic call). Qed.
+    fst (run_track call kind strat spec fs (with_auto (m_disk s) (m_mem s))) = Err e ->
+    m_disk (fst (step call kind s (OpUpdate fs strat spec w None b))) = m_disk s.
+  Proof. exact (l_failed_populate_atomic call kind). Qed.
 
   (* close + reopen: same content; the live counters are the persisted ones *)
-  Theorem C10_reopen : forall s, m_disk (fst (step call s OpReopen)) = m_disk s /\ m_mem (fst (step call s OpReopen)) = s_auto (m_disk s).
-  Proof. exact (l_reopen call). Qed.
+  Theorem C10_reopen : forall s, m_disk (fst (step call kind s OpReopen)) = m_disk s /\ m_mem (fst (step call kind s OpReopen)) = s_auto (m_disk s).
+  Proof. exact (l_reopen call kind). Qed.
 
   (* primary keys stay unique through every history: a generated key never equals a stored one *)
-  Theorem C10_ids_unique : forall ops s, NoDup (ids (m_disk s)) -> NoDup (ids (m_disk (run call s ops))).
-  Proof. exact (l_history_ids_unique call). Qed.
+  Theorem C10_ids_unique : forall ops s, NoDup (ids (m_disk s)) -> NoDup (ids (m_disk (run call kind s ops))).
+  Proof. exact (l_history_ids_unique call kind). Qed.
 
   (* numbering continues from the live counters: the first id-less feature of an update is stored
      under <featuretype>_(counter + 1) *)
@@ -84,9 +85,9 @@ Section P.
      grow (base by base) and never run ahead of the open object's counters, so a number once written to
      the autoincrements table is never handed out again *)
   Theorem C10_counters_monotone : forall ops s, cle (s_auto (m_disk s)) (m_mem s) ->
-    cle (s_auto (m_disk (run call s ops))) (m_mem (run call s ops)) /\
-    cle (s_auto (m_disk s)) (s_auto (m_disk (run call s ops))).
-  Proof. exact (l_history_counters call). Qed.
+    cle (s_auto (m_disk (run call kind s ops))) (m_mem (run call kind s ops)) /\
+    cle (s_auto (m_disk s)) (s_auto (m_disk (run call kind s ops))).
+  Proof. exact (l_history_counters call kind). Qed.
 
   (* every generated id draws from a counter that only moves up *)
   Theorem C10_step_counters_up : forall strat force spec st f st',
